@@ -671,6 +671,13 @@ def corpus():
         [[("ret", C(1, C(2, L(1)))), ("ret", C(1, L(11)))], [("ret", C(2, L(1)))], [("ret", C(3, A))], [("ret", ("add", A, L(10))), ("ret", ("add", A, L(100)))]],
         [dict(code={0: (0, False), 1: (0, True), 2: (0, False), 3: (0, False)}, fs={0: 1, 1: 1}, root=(0, 0)),
          dict(code={0: (1, False), 1: (0, True), 2: (0, False), 3: (1, False)}, fs={0: 1, 1: 1}, root=(0, 0), edits=[["body", 0, 1], ["body", 3, 1]])])
+    # the recover task of a catch is edited: the cached parent expression holds the Task object with its old hash and is invalid
+    out["edit-recover-task"] = H(
+        [("I", "src"), ("I", "src"), ("R", "src")],
+        [[("ret", C(1, ("catch", C(1, L(2)), 0, 2)))], [("ret", A)], [("ret", L(-1)), ("ret", L(7))]],
+        [dict(code={0: (0, False), 1: (0, False), 2: (0, False)}, fs={0: 1, 1: 1}, root=(0, 0)),
+         dict(code={0: (0, False), 1: (0, False), 2: (1, False)}, fs={0: 1, 1: 1}, root=(0, 0), edits=[["body", 2, 1]]),
+         dict(code={0: (0, False), 1: (0, False), 2: (0, False)}, fs={0: 1, 1: 1}, root=(0, 0), edits=[["revert", 2, 0]])])
     # edit / revert / bump of a leaf under two levels of cached single reductions
     out["edit-revert-bump"] = H(
         [("I", "src"), ("I", "ver"), ("I", "ver")],
@@ -713,7 +720,7 @@ def run(ctx):
         cases = [("corpus:" + name, h, dict(source="corpus")) for name, h in corpus().items()]
         nsteps_max = 6 if ctx.tier == "quick" else 10
         rng = ctx.rng
-        for idx in range(ctx.n(60, 600)):
+        for idx in range(ctx.n(140, 1500)):
             allow_catch = rng.random() < 0.25
             h = gen_history(rng, rng.randrange(2, nsteps_max + 1), allow_catch)
             cases.append(("gen%d" % idx, h, dict(source="generated", catch=allow_catch)))
